@@ -118,6 +118,15 @@ CHECKS = {
         "distinct in-range z-indexes (boundary reached by presetting the allocator).",
         note="Trusts VTerm's kitty/konsole placement semantics (stack vs replace) and urwid 2.6.16 as installed; text-layer anomalies are counted only.",
     ),
+    "C06": dict(
+        level="exploration",
+        technique="runtime monitor: real draw() on a pty, byte stream cut at every flush (in-band markers) and executed on VTerm against per-frame reference screens; validation predicate from the docstrings",
+        text="Both APIs' draw() (stills and animations, all styles per identity, paddings, loops, cache, initial cursor rows incl. forced "
+        "scrolling, TTY or not) write to a real pty; at every flush the screen must equal one frame drawn alone at the origin, in the "
+        "documented order; after the call the screen equals the last frame plus one newline, cursor visible at column 0 below, attributes "
+        "reset, no unnecessary scroll; rejected sizes raise the documented error before any byte is written.",
+        note="Trusts VTerm (incl. iTerm2/wezterm/konsole personalities), the logical clock replacing sleep/time in the library's namespaces, and the padding geometry model.",
+    ),
 }
 
 NOT_APPLICABLE = {
